@@ -23,17 +23,21 @@ from vf.ref import linalg as L
 from vf.ref import qasm as Q
 
 RULE = (
-    "Hypothesis draws (gate) one gate of the whole unitary gate table with special+continuous parameters, optionally "
-    "wrapped as ControlledOperation (0-2 controls, control values 0/1), placed on permuted qubits of a 1-4 qubit register, "
-    "exported both by cirq.qasm(op, args=...) and as a one-operation circuit; (unitary) a 1-4 wire circuit recipe over the "
-    "gate table with every insert strategy; (feedforward) a 1-4 wire circuit of gates, multi-qubit measurements with invert "
-    "masks and awkward keys, resets and classically controlled operations (KeyCondition incl. index, sympy key==const, "
-    "bitmask and other sympy conditions, 1-2 conditions); each x qubit order (permutation + optional idle qubit) x "
-    "precision {3,6,10,15} x version {2.0,3.0} x header x entry point (to_qasm / cirq.qasm / cirq.qasm(args) / QasmOutput). "
-    "Oracle: own OpenQASM reader -> numpy product (a) or exhaustive-branching reference interpreter (b), compared with "
-    "the same reference applied to an IR read off the Cirq operations' public attributes. Non-trivial: the export "
-    "needed a decomposition / U-gate / KAK fallback (an op without direct mnemonic), or contains a classical control, or "
-    "an inverted multi-qubit measurement. Distinct = distinct recipe hash."
+    "gate_special: exhaustive list of every gate family at the exponents/shifts/angles where the exporter switches mnemonic "
+    "(x sx sxdg s sdg t tdg h id cz cx cy swap ccx cswap u2 ...), both versions, plus the directly exportable controlled "
+    "Paulis/H in all construction forms and control values. gate: Hypothesis draws one gate of the whole unitary gate table "
+    "(special+continuous parameters), optionally wrapped with 1-2 controls (control values 0/1; ControlledOperation / "
+    "ControlledGate / controlled_by), on permuted qubits of a 1-4 qubit register; exported by cirq.qasm(op, args=...) and as a "
+    "one-operation circuit. unitary: a 1-4 wire circuit recipe over the gate table with every insert strategy. feedforward: a "
+    "1-4 wire circuit of Ry state preparation, gates, 1-3 qubit measurements with (short/full) invert masks and awkward keys "
+    "('x y', 'p:q', '0'), repeated keys, resets and classically controlled operations (KeyCondition incl. index, sympy "
+    "key==const, bitmask and other sympy conditions, 1-2 conditions). Each x qubit order (permutation + optional idle qubit) "
+    "x precision {3,6,10,15} x version {2.0,3.0} x header (None/''/multi-line/tricky) x entry point (to_qasm / cirq.qasm / "
+    "cirq.qasm(args=) / QasmOutput). Oracle: own OpenQASM reader -> numpy product (unitary part) or exhaustive-branching "
+    "reference interpreter (records + per-record final state), compared with the same reference applied to an IR read off "
+    "the Cirq operations' public attributes. Non-trivial: the export needed a decomposition / U-gate / KAK fallback (an op "
+    "without direct mnemonic), or contains a classical control, or an inverted multi-qubit measurement. Distinct = distinct "
+    "recipe hash."
 )
 ASSUMPTIONS = [
     "cirq.unitary(op) is taken as the matrix of each single operation (C03/C04 decide that)",
@@ -42,18 +46,32 @@ ASSUMPTIONS = [
     "extended mnemonic is recorded as label ext=<names>, not a failure",
     "creg read as integer has bit 0 least significant (2.0 paper sec. 3.3 / 3.0 bit[n]->int cast); creg m_<key> bit j is "
     "compared with the j-th measured qubit of the key; Cirq key value = big-endian int of the measured bits",
-    "tolerance: max-abs entry difference (unitary up to phase, probabilities and per-record density matrices x2) "
-    "<= 10^-precision * pi * #emitted gate statements + 1e-7",
+    "tolerance: max-abs entry difference (unitary up to phase; probabilities and per-record density matrices x2) "
+    "<= 10^-precision * pi * #emitted statements that carry an angle + 1e-7 (parameterless statements are exact)",
     "documented rejections counted as Reject: ValueError 'Cannot output operation as QASM', 'QASM is defined only for ...', "
     "'QASM 2.0 does not support multiple conditions', 'Key ... not in QasmArgs...'; BitMaskKeyCondition.qasm raises "
     "NotImplementedError (treated as the same kind of rejection)",
 ]
 SENSITIVITY = [
-    "ZPowGate qasm: sdg emitted for exponent +0.5", "QasmUGate qasm: phi and lambda swapped", "HPowGate qasm: ry angles swapped",
-    "ISwapPowGate decomposition missing an h", "measurement creg index reversed", "invert-mask X not undone",
-    "scientific notation without decimal point", "qubit ids reversed", "ControlledOperation qasm ignores control values",
-    "KeyCondition 3.0: ==0 instead of !=0", "QasmTwoQubitGate: X**-0.5 -> X**0.5", "CCY qasm: s/sdg swapped",
-    "PhasedXPowGate u2 branch angle sign", "to_qasm ignores qubit_order", "multiple conditions joined with ||",
+    "ZPowGate qasm: sdg emitted for exponent +0.5",
+    "QasmUGate qasm: phi and lambda swapped",
+    "HPowGate qasm: ry angles swapped",
+    "ISwapPowGate decomposition missing an h",
+    "measurement creg index reversed",
+    "invert-mask X not undone",
+    "scientific notation without decimal point",
+    "qubit ids reversed",
+    "ControlledOperation qasm ignores control values",
+    "KeyCondition 3.0: ==0 instead of !=0",
+    "QasmTwoQubitGate: X**-0.5 -> X**0.5",
+    "CCY qasm: s/sdg swapped",
+    "PhasedXPowGate u2 branch angle sign",
+    "to_qasm ignores qubit_order",
+    "multiple conditions joined with ||",
+    "XPowGate qasm: sxdg for exponent +0.5",
+    "half_turns rounding to precision-1 digits",
+    "sympy condition constant off by one bit (rhs reversed)",
+    "creg declared one bit larger than the measured key",
 ]
 
 PRECISIONS = [3, 6, 10, 15]
@@ -72,8 +90,11 @@ DOC_VALUE_ERRORS = (
 # ----------------------------------------------------------------------------------------- export + parse
 
 
-def _tol(precision, n_statements):
-    return 10.0 ** (-precision) * math.pi * max(1, n_statements) + 1e-7
+def _tol(precision, prog):
+    """Every emitted angle is rounded to ``precision`` digits of half turns: |d angle| <= 0.5e-p*pi per parameter, i.e. an
+    operator error <= 0.25e-p*pi per parameter, <= 0.75e-p*pi per (<= 3 parameter) statement; PhasedXPowGate's u2 shortcut
+    (|e -+ 0.5| <= 10^-p) adds <= 0.5e-p*pi.  Parameterless statements (cx, h, sx ...) are exact."""
+    return 10.0 ** (-precision) * math.pi * max(1, prog.n_param_statements) + 1e-7
 
 
 def _chance(draw, k):
@@ -207,7 +228,7 @@ def oracle_gate(r):
             raise Violation(f"cirq.qasm(op) text does not parse: {e}\n{frag}")
         got = L.circuit_unitary(Q.flat_unitary(prog), [2] * n)
         d = L.diff_up_to_phase(got, want)
-        tol = _tol(precision, prog.n_statements)
+        tol = _tol(precision, prog)
         if not d <= tol:
             raise Violation(f"cirq.qasm(op) of {r['g'][0]}{' (controlled)' if r.get('nctrl') else ''}: parsed unitary differs from "
                             f"cirq.unitary(op) by {d:.3g} up to phase (tol {tol:.1g})\nop={op!r}\n{frag}")
@@ -220,7 +241,7 @@ def oracle_gate(r):
     prog = _parse(text, version2, n)
     got = L.circuit_unitary(Q.flat_unitary(prog), [2] * n)
     d = L.diff_up_to_phase(got, want)
-    tol = _tol(precision2, prog.n_statements)
+    tol = _tol(precision2, prog)
     if not d <= tol:
         raise Violation(f"Circuit(op).to_qasm of {r['g'][0]}{' (controlled)' if r.get('nctrl') else ''}: parsed unitary differs from "
                         f"cirq.unitary(op) by {d:.3g} up to phase (tol {tol:.1g})\nop={op!r}\n{text[-1200:]}")
@@ -230,6 +251,48 @@ def oracle_gate(r):
     if frag is None:
         labels.update(_ext_label(prog))
     return labels
+
+
+def special_gate_cases(tier="quick"):
+    """Finite domain: every gate family at the exponents / shifts / angles where the exporter switches mnemonic
+    (x sx sxdg s sdg t tdg h id cz cx cy swap ccx cswap u2 ...), both versions, reversed qubit placement + idle qubit;
+    the directly exportable controlled Paulis / H through all three construction forms and both control values."""
+    G._lazy()
+    out = []
+
+    def add(g, version, nctrl=0, cv=(), form="op", precision=10):
+        k = G.arity(g) + nctrl
+        n = k + 1
+        out.append({"g": g, "w": list(range(k))[::-1], "n": n, "nctrl": nctrl, "cv": list(cv), "ctrl_form": form,
+                    "order": [(i + 1) % n for i in range(n)], "precision": precision, "version": version, "header": 1,
+                    "entry": "to_qasm"})
+
+    exps = [1.0, -1.0, 0.5, -0.5, 0.25, -0.25, 0.0, 2.0, 3.0, 1.5, 0.5 + 1e-9, 1 - 1e-9]
+    for v in VERSIONS:
+        for name, f in G.FAMILIES.items():
+            if "eigen" in f.tags:
+                for e in exps:
+                    for sh in (0.0, -0.5, 0.25):
+                        add([name, {"e": e, "s": sh}], v)
+        for name in ("Rx", "Ry", "Rz"):
+            for rr in (0.0, math.pi / 2, -math.pi / 2, math.pi, math.pi / 4, -math.pi / 4, 2 * math.pi, 3 * math.pi):
+                add([name, {"r": rr}], v)
+        for e in (0.5, -0.5, 1.0, 0.25, 1.5, -1.5, 0.5 + 1e-9, 0.5 - 1e-4):
+            for ph in (0.0, 0.25, 0.5, -0.5, 1.0, 1 / 3):
+                for prec in (3, 10):
+                    add(["PhasedXPow", {"p": ph, "e": e, "s": 0.0}], v, precision=prec)
+        for nn in (1, 2, 3):
+            add(["Identity", {"n": nn}], v)
+        add(["CSwap", {}], v)
+        for i in range(24):
+            add(["SingleQubitClifford", {"i": i}], v)
+        for name in ("XPow", "YPow", "ZPow", "HPow"):
+            for form in ("op", "gate", "controlled_by"):
+                for c in (1, 0):
+                    add([name, {"e": 1.0, "s": 0.0}], v, nctrl=1, cv=[c], form=form)
+                add([name, {"e": 0.5, "s": 0.0}], v, nctrl=1, cv=[1], form=form)
+                add([name, {"e": 1.0, "s": 0.5}], v, nctrl=1, cv=[1], form=form)
+    return out
 
 
 # ----------------------------------------------------------------------------------------- (2) unitary circuits
@@ -281,7 +344,7 @@ def oracle_unitary(r):
         raise Violation(f"unitary circuit exported with a non-unitary statement: {e}")
     want = L.circuit_unitary(ops, [2] * n)
     d = L.diff_up_to_phase(got, want)
-    tol = _tol(precision, prog.n_statements)
+    tol = _tol(precision, prog)
     if not d <= tol:
         raise Violation(f"to_qasm: parsed program unitary differs from the circuit's by {d:.3g} up to phase (tol {tol:.1g}), "
                         f"version {version}\n{text[-1500:]}")
@@ -668,7 +731,7 @@ def compare_program(circuit, order, text, precision, version, steps=(), entry=No
 
     dc = _collect(bc, conv_c)
     dq = _collect(bq, lambda rec: rec)
-    tol = 2 * _tol(precision, prog.n_statements)
+    tol = 2 * _tol(precision, prog)
     worst, where = 0.0, None
     for k in sorted(set(dc) | set(dq)):
         pc, rc = dc.get(k, (0.0, 0.0))
@@ -759,8 +822,6 @@ def _bitrev(v, n):
 
 
 KNOWN_FEATURES = {
-    # F5 (C04/C06/C07 candidate): ThreeQubitDiagonalGate._decompose_ permutes qubit roles -> exported decomposition wrong
-    "F5_three_qubit_diagonal_decompose": lambda sub, r: "ThreeQubitDiagonal" in _families(sub, r),
     # F8: sympy ``key == v`` on a key of n >= 2 bits with v != bit-reversed v
     "F8_multibit_eq_creg_endianness": lambda sub, r: any(
         c["t"] == "eq" and c["bits"] >= 2 and c["v"] < 2 ** c["bits"] and _bitrev(c["v"], c["bits"]) != c["v"]
@@ -785,22 +846,43 @@ KNOWN_FEATURES = {
     # C19G: GlobalPhaseGate.is_identity() is np.isclose(coefficient, 1) (rtol 1e-5): while decomposing a *controlled*
     # gate the extracted phase exp(i pi shift exponent) is dropped when it is within 1e-5 of 1, although under a
     # control it is a relative phase -> decomposition (hence export) off by up to 1e-5 regardless of precision
-    "C19G_controlled_small_phase_dropped": lambda sub, r: sub == "gate" and r.get("nctrl", 0) > 0 and _tiny_phase(r["g"]),
+    "C19G_controlled_small_phase_dropped": lambda sub, r: sub == "gate" and r.get("nctrl", 0) > 0 and _tiny_phase(r),
 }
 
 
-def _tiny_phase(g):
-    fam, p = g
-    vals = [v for v in p.values() if isinstance(v, (int, float)) and not isinstance(v, bool)]
-    vals += [x for v in p.values() if isinstance(v, list) for x in v if isinstance(x, (int, float)) and not isinstance(x, bool)]
-    if "e" in p and "s" in p:
-        ph = math.remainder(math.pi * p["e"] * p["s"], 2 * math.pi)
-        vals.append(ph)
-    return any(1e-8 < abs(v) < 1e-4 for v in vals)
+def _tiny_phase(r):
+    """True iff Cirq's own full decomposition of the controlled operation differs from cirq.unitary(op) by an amount in
+    the band the dropped phases produce (1e-7 .. 5e-5); computed without any QASM code."""
+    qs = cirq.LineQubit.range(r["n"])
+    op = _gate_op(r, qs)
+    u = cirq.unitary(op, None)
+    if u is None:
+        return False
+    want = L.embed(u, [qs.index(q) for q in op.qubits], [2] * r["n"])
+    ops = []
+    for sub in cirq.decompose(op):
+        if len(sub.qubits) > 2 or cirq.unitary(sub, None) is None:
+            return False
+        ops.append((cirq.unitary(sub), [qs.index(q) for q in sub.qubits]))
+    d = L.diff_up_to_phase(L.circuit_unitary(ops, [2] * r["n"]), want)
+    return 1e-7 < d < 5e-5
+
+
+def uncovered():
+    return [
+        "parameterised (sympy) circuits, qudits, CircuitOperation / nested keys, classically controlled measurements, "
+        "measurements of one key with different arities: outside the generated domain",
+        "indexed sympy conditions (a[0] ^ a[1]) are only checked to be rejected",
+        "save_qasm (file output) is not exercised; Circuit.to_qasm / cirq.qasm / QasmOutput.__str__ are",
+        "conformance of the text with third-party readers (Qiskit, openqasm3 reference parser) is not tested; the reader "
+        "here accepts Qiskit's extended qelib1 mnemonics and records them (label ext=...)",
+    ]
 
 
 SUBCHECKS = [
-    SubCheck("gate", _gate_case(), oracle_gate, quick=3000, thorough=120000, shards_quick=4, shards_thorough=16,
+    SubCheck("gate_special", None, oracle_gate, quick=0, thorough=0, shards_quick=4, shards_thorough=4,
+             enumerate=special_gate_cases, exhaustive_in=("quick", "thorough")),
+    SubCheck("gate", _gate_case(), oracle_gate, quick=3000, thorough=120000, shards_quick=8, shards_thorough=16,
              essential={"direct": 0.2, "decomposed": 0.2, "controlled": 0.1}),
     SubCheck("unitary", _unitary_case(), oracle_unitary, quick=1600, thorough=60000, shards_quick=6, shards_thorough=16,
              essential={"needs_decomposition": 0.3, "version=3.0": 0.3, "version=2.0": 0.3}),
